@@ -428,7 +428,7 @@ def dispatch_cases(chk):
 def run(tier="quick", seed=0, replay=None):
     chk = core.Check("C14", tier, seed, "translation_validation")
     chk.rule = ("SklearnWrapper around recording row-wise prediction functions: output kinds {scalar (), (n,), (n,1), (n,c), (c,)} x dtypes "
-                "{f64,f32,i64,bool} x d 1..4 x with/without feature names (one extra key) x single dict / batches of 1,2,5 x shuffled key "
+                "{f64,f32,i64,bool} x d 1..4 x with/without feature names (one extra key, sometimes a string id) x single dict / batches of 1,2,5 x shuffled key "
                 "orders; RiverWrapper on label / number / dict streams; real sklearn and torch models; dispatch over sklearn/river estimator "
                 "classes. Non-trivial: always; distinct by hash.")
     chk.trusted = ["Lean 4.33.0 kernel (theorems about the array model)", "axioms propext/Classical.choice/Quot.sound",
